@@ -138,6 +138,10 @@ func runCheck(o CheckOpts) int {
 		fmt.Fprintf(os.Stderr, "govc: contract error: contracts that are neither `assumed` nor tagged with a property (callers would rely on them unchecked): %s\n", strings.Join(w.untagged, ", "))
 		return 2
 	}
+	if len(w.duplicates) > 0 {
+		fmt.Fprintf(os.Stderr, "govc: contract error: more than one contract for: %s (use a view `func F @name` for a second contract)\n", strings.Join(w.duplicates, ", "))
+		return 2
+	}
 	cons := w.propContracts(o.Prop)
 	if len(cons) == 0 {
 		fmt.Fprintf(os.Stderr, "govc: no contracts tagged %s\n", o.Prop)
